@@ -36,14 +36,44 @@ const (
 	tyIndexer     = 8
 	tyLoader      = 9
 	tyTransformer = 10
-	numTy         = 11
 	// tyNil: not a component type — the "type" of the untyped nil handed to WithLambdaOption(nil):
 	// reflect.TypeOf gives nil for it, no component has that option type, so it is of the wrong
 	// type for every component it is designated to and reaches nobody undesignated
 	tyNil = 11
+	// lambdas DECLARED with an interface option type (opts ...any, opts ...fmt.Stringer — the form the
+	// doc comments of compose.InvokableLambdaWithOption use). Options are routed by the identity of
+	// reflect.TypeOf(value) with the node's declared option type, and the dynamic type of a value is
+	// never an interface type: no option value has these types. Such a lambda is a node of another
+	// type for every component option (it receives none of them undesignated), and whatever option
+	// value is designated to it is of the wrong type. Only node types: mkItem never builds them.
+	tyIfaceAny = 12
+	tyIfaceStr = 13
+	// unusual-but-legal concrete option types next to lambdaA's optA: the pointer type *optA and a
+	// named type with the same underlying type (optA2: convertible to optA, not identical, not
+	// assignable). Ordinary types for the model (an id of their own), values exist.
+	tyPtrA   = 14
+	tyNamedA = 15
+	tyCount  = 16
 )
 
-var tyNames = []string{"none", "model", "retriever", "embedding", "prompt", "tools", "lambdaA", "lambdaB", "indexer", "loader", "transformer"}
+var tyNames = []string{"none", "model", "retriever", "embedding", "prompt", "tools", "lambdaA", "lambdaB", "indexer", "loader", "transformer",
+	"nil", "lambdaIfaceAny", "lambdaIfaceStringer", "lambdaPtrA", "lambdaNamedA"}
+
+// valueTypes: the option types of which option values exist (what a pool of a case is drawn from)
+var valueTypes = []int{tyModel, tyRetriever, tyEmbedding, tyPrompt, tyTools, tyLambdaA, tyLambdaB, tyIndexer, tyLoader, tyTransformer, tyPtrA, tyNamedA}
+
+// isLambdaTy: the fake component of this option type is a lambda of this harness (takes the whole
+// input map, may be native in any paradigm)
+func isLambdaTy(ty int) bool {
+	switch ty {
+	case tyLambdaA, tyLambdaB, tyIfaceAny, tyIfaceStr, tyPtrA, tyNamedA:
+		return true
+	}
+	return false
+}
+
+// isIfaceTy: a lambda declared with an interface option type
+func isIfaceTy(ty int) bool { return ty == tyIfaceAny || ty == tyIfaceStr }
 
 // toolCalls: the number of tool calls in the message every ToolsNode of a case is given (the
 // fake tool records one execution per tool call)
@@ -65,6 +95,11 @@ func sinkFn(p int) func(*sink) { return func(s *sink) { s.ids = append(s.ids, p)
 
 type optA struct{ ID int }
 type optB struct{ ID int }
+type optA2 optA
+
+// optB implements fmt.Stringer: an optB value is assignable to the declared option type of the
+// lambdaIfaceStringer nodes (and every value to that of the lambdaIfaceAny nodes) without being of it
+func (o optB) String() string { return fmt.Sprint("optB#", o.ID) }
 
 // mkItem builds one option value of Go type ty carrying payload p.
 func mkItem(ty, p int) any {
@@ -91,8 +126,12 @@ func mkItem(ty, p int) any {
 		return document.WrapTransformerImplSpecificOptFn(sinkFn(p))
 	case tyNil:
 		return nil
+	case tyPtrA:
+		return &optA{p}
+	case tyNamedA:
+		return optA2{p}
 	}
-	panic("harness: no option value of type none")
+	panic("harness: no option value of this type")
 }
 
 func conv[T any](items []any) []T {
@@ -335,6 +374,81 @@ func idsB(opts []optB) []int {
 	return out
 }
 
+func idsPtrA(opts []*optA) []int {
+	out := make([]int, len(opts))
+	for i, o := range opts {
+		out[i] = undecodable
+		if o != nil {
+			out[i] = o.ID
+		}
+	}
+	return out
+}
+func idsNamedA(opts []optA2) []int {
+	out := make([]int, len(opts))
+	for i, o := range opts {
+		out[i] = o.ID
+	}
+	return out
+}
+
+// undecodable: payload reported for an option value whose payload the receiving node cannot read
+const undecodable = 999999
+
+// payloadOf: the payload of whatever option value a lambda declared with an interface option type
+// is handed (it should never be handed any)
+func payloadOf(o any) int {
+	one := func(ids []int) int {
+		if len(ids) == 1 {
+			return ids[0]
+		}
+		return undecodable
+	}
+	switch v := o.(type) {
+	case optA:
+		return v.ID
+	case optB:
+		return v.ID
+	case optA2:
+		return v.ID
+	case *optA:
+		if v != nil {
+			return v.ID
+		}
+	case model.Option:
+		return one(model.GetImplSpecificOptions(&sink{}, v).ids)
+	case retriever.Option:
+		return one(retriever.GetImplSpecificOptions(&sink{}, v).ids)
+	case embedding.Option:
+		return one(embedding.GetImplSpecificOptions(&sink{}, v).ids)
+	case prompt.Option:
+		return one(prompt.GetImplSpecificOptions(&sink{}, v).ids)
+	case indexer.Option:
+		return one(indexer.GetImplSpecificOptions(&sink{}, v).ids)
+	case document.LoaderOption:
+		return one(document.GetLoaderImplSpecificOptions(&sink{}, v).ids)
+	case document.TransformerOption:
+		return one(document.GetTransformerImplSpecificOptions(&sink{}, v).ids)
+	case tool.Option:
+		return one(tool.GetImplSpecificOptions(&sink{}, v).ids)
+	}
+	return undecodable
+}
+func idsAny(opts []any) []int {
+	out := make([]int, len(opts))
+	for i, o := range opts {
+		out[i] = payloadOf(o)
+	}
+	return out
+}
+func idsStringer(opts []fmt.Stringer) []int {
+	out := make([]int, len(opts))
+	for i, o := range opts {
+		out[i] = payloadOf(o)
+	}
+	return out
+}
+
 // optLambda: a lambda with call options of type T that records the payloads it receives. nat
 // chooses which of the four paradigms the lambda implements natively (0 Invoke, 1 Stream,
 // 2 Collect, 3 Transform, 4 Invoke+Transform, 5 Stream+Collect); the graph derives the others,
@@ -443,6 +557,14 @@ func addComp(ctx context.Context, g nodeSink, key, path string, ty, nat int) (an
 		return nil, g.AddLambdaNode(key, optLambda(path, nat, idsA), lo...)
 	case tyLambdaB:
 		return nil, g.AddLambdaNode(key, optLambda(path, nat, idsB), lo...)
+	case tyIfaceAny:
+		return nil, g.AddLambdaNode(key, optLambda(path, nat, idsAny), lo...)
+	case tyIfaceStr:
+		return nil, g.AddLambdaNode(key, optLambda(path, nat, idsStringer), lo...)
+	case tyPtrA:
+		return nil, g.AddLambdaNode(key, optLambda(path, nat, idsPtrA), lo...)
+	case tyNamedA:
+		return nil, g.AddLambdaNode(key, optLambda(path, nat, idsNamedA), lo...)
 	case tyIndexer:
 		return []*schema.Document{{ID: "d"}}, g.AddIndexerNode(key, &fakeIndexer{path}, o...)
 	case tyLoader:
